@@ -1069,6 +1069,7 @@ func runC02(c *Ctx) {
 	if flags.WalkSlice {
 		r.Count("flag:walkSliceNode", 1)
 	}
+	runWitnesses(c) // first, so that the replay written per key is the minimal witness
 	n := 5000
 	nOracle := 600
 	maxPending := 150
@@ -1139,7 +1140,6 @@ func runC02(c *Ctx) {
 	t0 = time.Now()
 	or.attribute()
 	r.Note("attribution: %.1fs", time.Since(t0).Seconds())
-	runWitnesses(c)
 	if r.Counters["oracle:both-equal"] == 0 || r.Counters["oracle:both-fail"] == 0 {
 		r.Mismatch("generator", "oracle", "both-equal and both-fail outcomes", fmt.Sprintf("%v", r.Counters))
 	}
